@@ -162,6 +162,84 @@ def ringForEach (r : RingHead) : Nat → U32 → List U32
   | 0, _ => []
   | fuel + 1, n => if n != r.head then n :: ringForEach r fuel ((n + 1) % r.size) else []
 
+/-! ## Operation language of the C ring.
+
+The driver executes exactly `stepRing`; the refinement theorems of Props.lean
+quantify over arbitrary `List Op`.  `produce`/`consume` are the two usage
+patterns of the bulk moves: the user code touches the slots itself
+(`buffer[(head + i) % size] = d[i]`, DMA style) and then publishes / releases
+them with `ring_move_head` / `ring_move_tail`; the slot arithmetic of the user
+side (`directFill`, `directPeek`) is the harness' code, not igris'. -/
+
+/-- user side: `for (i…) buffer[(p + i) % size] = d[i];` -/
+def directFill {α : Type} (buf : List α) (size : Nat) : Nat → List α → Option (List α)
+  | _, [] => some buf
+  | p, b :: bs =>
+    match poke buf (p % size) b with
+    | none => none
+    | some buf' => directFill buf' size (p + 1) bs
+
+/-- user side: `for (i…) out[i] = buffer[(p + i) % size];` -/
+def directPeek {α : Type} (buf : List α) (size : Nat) : Nat → Nat → Option (List α)
+  | _, 0 => some []
+  | p, n + 1 =>
+    match buf[p % size]? with
+    | none => none
+    | some x => (directPeek buf size (p + 1) n).map (x :: ·)
+
+inductive Op where
+  | putc (c : Byte)
+  | getc
+  | write (d : List Byte)
+  | read (n : Nat)
+  | produce (d : List Byte)   -- fill the free slots after head, then `ring_move_head(|d|)`
+  | produce1 (c : Byte)       -- fill slot head, then `ring_move_head_one`
+  | consume (n : Nat)         -- read n slots from tail, then `ring_move_tail(n)`
+  | consume1                  -- read slot tail, then `ring_move_tail_one`
+  | moveHead (n : U32)        -- bare `ring_move_head`
+  | moveHeadOne
+  | moveTail (n : U32)        -- bare `ring_move_tail`
+  | moveTailOne
+  | clean
+  deriving Repr
+
+inductive Out where
+  | int (v : Int)             -- return value of putc / getc
+  | count (n : Nat)           -- return value of write
+  | bytes (d : List Byte)     -- bytes delivered by read / consume (return value = their number)
+  | unit
+  deriving DecidableEq, Repr
+
+def stepRing (r : RingHead) (buf : List Byte) : Op → Option (RingHead × List Byte × Out)
+  | .putc c => (ringPutc r buf c).map fun (r', b', rc) => (r', b', .int rc)
+  | .getc => (ringGetc r buf).map fun (r', c) => (r', buf, .int c)
+  | .write d => (ringWrite r buf d).map fun (r', b', n) => (r', b', .count n)
+  | .read n => (ringRead r buf n).map fun (r', out) => (r', buf, .bytes out)
+  | .produce d =>
+      (directFill buf r.size.toNat r.head.toNat d).map fun b' =>
+        (ringMoveHead r (BitVec.ofNat 32 d.length), b', .unit)
+  | .produce1 c => (poke buf r.head.toNat c).map fun b' => (ringMoveHeadOne r, b', .unit)
+  | .consume n =>
+      (directPeek buf r.size.toNat r.tail.toNat n).map fun out =>
+        (ringMoveTail r (BitVec.ofNat 32 n), buf, .bytes out)
+  | .consume1 => (buf[r.tail.toNat]?).map fun x => (ringMoveTailOne r, buf, .bytes [x])
+  | .moveHead n => some (ringMoveHead r n, buf, .unit)
+  | .moveHeadOne => some (ringMoveHeadOne r, buf, .unit)
+  | .moveTail n => some (ringMoveTail r n, buf, .unit)
+  | .moveTailOne => some (ringMoveTailOne r, buf, .unit)
+  | .clean => some (ringClean r, buf, .unit)
+
+/-- a whole history; `none` = some operation faulted -/
+def runRing : RingHead → List Byte → List Op → Option (RingHead × List Byte × List Out)
+  | r, buf, [] => some (r, buf, [])
+  | r, buf, op :: ops =>
+    match stepRing r buf op with
+    | none => none
+    | some (r', buf', o) =>
+      match runRing r' buf' ops with
+      | none => none
+      | some (r'', buf'', os) => some (r'', buf'', o :: os)
+
 /-! ## igris/container/ring.h — `igris::ring<T>` (`r` + `unbounded_array<T> buffer`) -/
 
 structure TRing (α : Type) where
